@@ -599,6 +599,20 @@ def fmt_num(x):
     return str(x)
 
 
+TRACE = {"empty_sum": 0}
+
+
+def data_classes(ds, q):
+    """Classes decided on (dataset, query) by evaluating the Spec: `empty-sum` = some SUM is taken over a group without
+    any numeric value (finding C01-empty-sum-negative-zero: the engine prints -0 for it)."""
+    TRACE["empty_sum"] = 0
+    try:
+        spec_answer(ds, q)
+    except Exception:        # noqa
+        pass
+    return {"empty-sum"} if TRACE["empty_sum"] else set()
+
+
 def aggregate(rows, q):
     aggs = [p for p in q["proj"] if p != "*" and p[0] != "VAR"] if q["proj"] != "*" else []
     if not aggs and not q["group_by"]:
@@ -623,6 +637,8 @@ def aggregate(rows, q):
             val = None
             if kind == "SUM":
                 val = fmt_num(sum(vals))
+                if not vals:
+                    TRACE["empty_sum"] += 1
             elif kind == "MIN" and vals:
                 val = fmt_num(min(vals))
             elif kind == "MAX" and vals:
@@ -678,8 +694,8 @@ def is_agg_name(c):
 
 
 def cell_eq(a, b, is_agg):
-    """a: implementation cell, b: Spec cell.  Aggregate columns are compared as numbers (the engine computes them in
-    f64: `-0` for an empty SUM, decimal expansions for AVG), within 1e-9."""
+    """a: implementation cell, b: Spec cell.  AVG columns (top level only) are compared as numbers within 1e-9 (the engine
+    prints the f64 quotient, the Spec the exact rational); every other cell, SUM / MIN / MAX included, lexically."""
     if a == b:
         return True
     if is_agg and a != "" and b != "":
@@ -714,7 +730,7 @@ def check_answer(q, spec, impl_rows):
     - LIMIT n: min(n, |full|) rows, a sub-multiset of the full answer; under ORDER BY sorted, and no left-out
       row sorts strictly before the last returned one (a prefix of some legal order)."""
     cols = spec["cols"]
-    avg_cols = set(i for i, c in enumerate(cols) if is_agg_name(c))
+    avg_cols = set(i for i, (kind, v, alias) in enumerate(q["proj"]) if kind == "AVG") if q["proj"] != "*" else set()
     full = spec["full"]
     n = len(full) if q["limit"] is None else min(q["limit"], len(full))
     if any(len(r) != len(cols) for r in impl_rows):
@@ -1429,23 +1445,8 @@ def canon_impl_mus(rows):
 
 
 def mus_equal(a, b):
-    """multiset equality of two canonical row lists; values of aggregate aliases compared numerically"""
-    if len(a) != len(b):
-        return False
-
-    def norm(row):
-        out = []
-        for k, v in row:
-            if is_agg_name(k):
-                try:
-                    f = Fraction(v)
-                    v = "#%d/%d" % (f.numerator, f.denominator) if abs(f - round(f)) > 1e-12 else "#%d" % round(f)
-                except Exception:
-                    pass
-            out.append([k, v])
-        return sorted(out)
-    return sorted(norm(r) for r in a) == sorted(norm(r) for r in b)
-
+    """multiset equality of two canonical row lists (exact: AVG never occurs below the top level)"""
+    return len(a) == len(b) and sorted(sorted(r) for r in a) == sorted(sorted(r) for r in b)
 
 
 # ------------------------------------------------------------------------------------------------
